@@ -3,9 +3,6 @@ import PjrpcModel.Driver.SuiteDispatch
 import PjrpcModel.Spec
 namespace Pjrpc.Driver
 
-def rstripSlash (s : String) : String := String.ofList (s.toList.reverse.dropWhile (· == '/')).reverse
-def lstripSlash (s : String) : String := String.ofList (s.toList.dropWhile (· == '/'))
-
 def decSpecMethod (j : J) : M SpecMethod := do
   return {
     endpoint := ← str (← fld j "endpoint")
